@@ -242,6 +242,8 @@ def _one(cfg, pre):
     from sched import thr_tramp
 
     res = thr_tramp.run_threads(cfg, pre)
+    if res["status"] == "hang":  # a watchdog fired: retry once (an overloaded machine can starve the baton hand-over)
+        res = thr_tramp.run_threads(cfg, pre)
     if res["status"] == "hang":
         raise RuntimeError(f"controller hang cfg={cfg} pre={pre}")
     trace, problems = thr_tramp.labels_of(res)
